@@ -94,6 +94,7 @@ func NewNode(cfg Config) (*Node, error) {
 	}
 	if cfg.HTTP {
 		n.Server = lhttp.NewServer(st, "127.0.0.1:0")
+		n.Server.SnapshotTimeout = 30 * time.Second // default would be Store.Retention
 		if err := n.Server.Listen(); err != nil {
 			return nil, err
 		}
